@@ -12,7 +12,8 @@ CLAIMS = {
  "C05": dict(tech="Coq proof by induction over histories (append-only) + differential correspondence + byte-prefix/tar-scan oracle", text=M1 + ". Proved: for every call and every history the previous tape is a prefix of the new one (step_extends, final_extends).", ref="3 C05"),
  "C06": dict(tech="Coq proof of the cut-tape layout theorem (for every tape and every cut length) + every-byte prefix sweep as correspondence + oracle", text=M1 + ". Proved for every tape and cut: the applied headers are a prefix of the records, every applied record but the last is wholly present, an error is reported iff the last one's data is cut, untouched records fetch exactly; the cut-to-outcome table is tied by sweeping cut lengths over generated tapes.", ref="3 C06"),
  "C07": dict(tech="model of replay-into-populated-index evaluated in Coq against the implementation + replay oracle; statement proved on a witness tape for every prefix length", text=M1 + ". The general convergence statement is kept as C07_full_statement; decided on every run by replaying generated tapes into prefix indexes on the implementation (partial proof).", ref="3 C07"),
- "C14": dict(tech="handle state-machine model + byte-array reference in Coq, correspondence over handle-call sequences, side-by-side reference run (afero OsFs)", text=M1 + ". Model/File.v (hstep) is tied by handle-call sequences; the reference comparison runs on the implementation; the refinement theorem (handle refines FileSpec inside the envelope) is being proved; deviations outside the envelope are listed known findings.", ref="3 C14"),
+ "C14": dict(tech="handle state-machine model + byte-array reference in Coq, correspondence over handle-call sequences, side-by-side reference run (afero OsFs)", text=M1 + ". Model/File.v (hstep) is tied by handle-call sequences; the reference comparison runs on the implementation; PROVED (C14_refines, C14_refines_wide): for every initial content, flag combination without O_APPEND and every call sequence inside the envelope (no positioned I/O, read-mode seeks not beyond the end) each call returns what the byte-array reference returns and the content after Close is the reference's data; every envelope restriction is shown necessary by a refutation witness = the listed known findings.", ref="3 C14"),
+ "C16": dict(tech="Coq theorems on the Initialize model (never rewrites, appends only when neither index nor tape yields a root) + cut-tape model + opening oracle over cut tapes x index kinds", text=M1 + ". Proved: Initialize extends the tape at most, leaves it untouched whenever the index knows a root or the tape replays (even up to a damaged tail) to an index with a root; faithfulness after opening and durability of later writes are decided by the oracle (two known findings: stale index, appends after a damaged tail).", ref="3 C16"),
  "C10": dict(tech="verified monitor check over the regenerated control skeleton (lock discipline on every path) + fault enumeration on the implementation", text=M2 + ": every path of every exported call (every error branch = every fault point, any number of loop iterations) ends with no lock held; known finding: the streaming read goroutine.", ref="3 C10"),
  "C12": dict(tech="Coq proof of the subtree selection (LIKE implied by exact prefix, children characterisation) + differential correspondence + subtree oracle", text=M1 + ". Proved for all byte strings: the children selected are exactly the live rows under <dir>/, the LIKE pre-filter loses none; the raw LIKE is refuted by witness.", ref="3 C12"),
  "C13": dict(tech="Coq proof of the limit law + differential correspondence + walk/Stat/limit oracle", text=M1 + ". Proved: a count-limited listing never exceeds the count; reachability, parent and lookup agreement are decided by the oracle on every run (partial proof).", ref="3 C13"),
